@@ -57,7 +57,7 @@ def extra_checks(tier, rng, binaries, log):
             res.append((False, "net_driver (%s) does not build: %s" % (h, str(e)[-300:]), "build", {}))
             continue
         kv, err = run_net(binary, ["pool", "threads=%d" % threads, "conns=%d" % conns, "reqs=%d" % reqs] +
-                          (["rounds=8"] if h.endswith("tsan") else []))
+                          (["rounds=8"] if h.endswith("tsan") else ["rounds=5"]))
         n += 1
         cmdline = "net_driver(%s) pool threads=%d conns=%d reqs=%d" % (h, threads, conns, reqs)
         if kv is None:
@@ -67,6 +67,12 @@ def extra_checks(tier, rng, binaries, log):
                         "overlaps": kv.get("overlaps"), "tsan_reports": kv.get("tsan_reports", "-")})
         if kv.get("overlaps") != "0":
             res.append((False, "handlers of one connection ran concurrently %s times" % kv.get("overlaps"), cmdline, {}))
+        if kv.get("dup_disconnected", "0") != "0":
+            res.append((False, "%s connections were signalled as disconnected more than once in the thread pool" % kv.get("dup_disconnected"),
+                        cmdline, {}))
+        if kv.get("srv_connected") is not None and int(kv.get("srv_disconnected", 0)) > int(kv.get("srv_connected", 0)):
+            res.append((False, "%s disconnected events for %s connected events in the thread pool" % (kv.get("srv_disconnected"), kv.get("srv_connected")),
+                        cmdline, {}))
         if kv.get("order_violations", "0") != "0":
             res.append((False, "%s handler calls for a connection whose connected handler had not returned yet" % kv.get("order_violations"),
                         cmdline, {}))
